@@ -89,7 +89,8 @@ REG.update({
         "rule": S5_RULE + ("S6: after the prologue all three disks of the node record one global write-op log (every direct put/delete and every batch commit as one atomic group, in issue order across prime/region/zone). "
                  "After the history, the process is crashed at 1..5 drawn prefixes of that log (every other one snapped to -2..+2 writes around a multi-op zone batch, preferring the block batch that mutates UTXO/lockup records); "
                  "the node is restarted on the surviving images of all three disks. Oracles per image: restart returns without error/panic; the reported head has state and its UTXORoot/size equal the stored ut+cl records; "
-                 "re-delivering the original chain (with append-queue ticks) appends every block and the final chain state equals the uncrashed node's. Evaluations = histories; crash images are counted in counters."),
+                 "re-delivering the original chain (with append-queue ticks) appends every block and the final chain state equals the uncrashed node's. Evaluations = histories; crash images are counted in counters."
+                 " Tuning knob (added after seeding wave 5's C11-c): two histories in five run with ethdb.IdealBatchSize = 512 B or 6 KiB instead of 100 KiB (build-time source patch turns the constant into a variable with the same default), so every size-triggered flush - trie.Database.Commit/Cap in several batches, or a block batch flushed early - happens at the block sizes a simulated chain reaches and crash points fall between the partial flushes."),
         "expect_probes": ["crash_between-writes", "crash_right-after-zone-batch", "crash_right-after-utxo-mutating-block-batch", "history_has_utxo_mutating_batch"],
         "components": S5_COMPONENTS,
         "assumptions": ["batches are atomic (engine contract); a crash loses a suffix of the write log, never reorders it", "crash points are sampled per history, not enumerated exhaustively"],
